@@ -149,10 +149,16 @@ type refTable struct {
 	TLS     map[string]bool      // hosts with a tls entry
 	Default *refBackend          // --default-backend-service
 	Amb     func(host, path string) bool
+	// Strict: global strict-host is true - a request for a declared host that matches none of its paths is not tried
+	// on the default host's paths; it goes to the fallback (the backend of the default host's "/", else the default backend)
+	Strict bool
 }
 
 func refBuild(w *world.World, p ctlsim.Params) *refTable {
 	t := &refTable{Hosts: map[string][]refRule{}, TLS: map[string]bool{}}
+	if cm := w.Get(world.KConfigMap, world.GlobalCM); cm != nil && cm.Data["strict-host"] == "true" {
+		t.Strict = true
+	}
 	declared := func(host string, r C04Rule) bool {
 		for _, e := range t.Hosts[host] {
 			if e.C04Rule == r {
@@ -242,14 +248,48 @@ func (t *refTable) route(https bool, hostHdr, path string) []*refBackend {
 		if ws := t.winners(host, path); len(ws) > 0 {
 			return backs(ws)
 		}
+		if t.Strict {
+			var out []*refBackend
+			for _, r := range t.Hosts[""] {
+				if r.Path == "/" {
+					out = append(out, r.Back)
+				}
+			}
+			if len(out) == 0 && t.Default != nil {
+				out = []*refBackend{t.Default}
+			}
+			// not judged where the documentation leaves it open: no fallback backend exists at all ("the default-backend
+			// should be used", and there is none), or the host has no effective rule (it may not be configured at all)
+			if len(out) == 0 || len(t.Hosts[host]) == 0 {
+				out = append(out, t.lenient(path)...)
+				out = append(out, &refBackend{ID: "_error404"})
+			}
+			return out
+		}
 	}
+	return t.lenient(path)
+}
+
+// lenient is the lookup without strict-host: the default host's paths, then the default backend.
+func (t *refTable) lenient(path string) []*refBackend {
 	if ws := t.winners("", path); len(ws) > 0 {
 		return backs(ws)
 	}
-	if t.Default != nil {
-		return []*refBackend{t.Default}
+	var out []*refBackend
+	if t.Strict {
+		// with strict-host the default host is a host like the others: it also gets the catch-all that points to the
+		// backend of its own "/" (of any type). The documentation only says "the default-backend should be used", so
+		// both answers are accepted.
+		for _, r := range t.Hosts[""] {
+			if r.Path == "/" {
+				out = append(out, r.Back)
+			}
+		}
 	}
-	return []*refBackend{{ID: "_error404"}}
+	if t.Default != nil {
+		return append(out, t.Default)
+	}
+	return append(out, &refBackend{ID: "_error404"})
 }
 
 func backs(ws []refRule) []*refBackend {
